@@ -139,6 +139,12 @@ func runHsrvCase(t *testing.T, c map[string]any, tmp string) map[string]any {
 		os.MkdirAll(filepath.Dir(p), 0700)
 		if "dir" == hstr(em, "k") {
 			os.MkdirAll(p, 0700)
+		} else if n := int(vnum(em["gen"], 0)); n > 0 { /* a large file with computable content */
+			b := make([]byte, n)
+			for i := range b {
+				b[i] = byte((i*31 + i/251 + 7) % 251)
+			}
+			os.WriteFile(p, b, 0600)
 		} else {
 			os.WriteFile(p, hxd(em["c"]), 0600)
 		}
@@ -270,6 +276,56 @@ func runHsrvCase(t *testing.T, c map[string]any, tmp string) map[string]any {
 				ar["body"] = hex.EncodeToString(body)
 				ar["location"] = resp.Header.Get("Location")
 			}
+		case "par": /* requests in flight at the same time: each worker sends its requests one after the other, all workers at once */
+			nw, rounds := int(vnum(am["workers"], 8)), int(vnum(am["rounds"], 1))
+			reqs := anyList(am["reqs"])
+			var (
+				pmu  sync.Mutex
+				pres []map[string]any
+				pwg  sync.WaitGroup
+			)
+			start := make(chan struct{})
+			for wk := 0; wk < nw; wk++ {
+				pwg.Add(1)
+				go func() {
+					defer pwg.Done()
+					<-start
+					for rd := 0; rd < rounds; rd++ {
+						ri := (wk + rd) % len(reqs)
+						one := map[string]any{"req": ri}
+						tc, err := dial("")
+						if nil != err {
+							one["error"] = err.Error()
+						} else {
+							tc.SetDeadline(time.Now().Add(20 * time.Second))
+							tc.Write(hxd(reqs[ri]))
+							raw, rerr := io.ReadAll(tc)
+							tc.Close()
+							if resp, err := http.ReadResponse(bufio.NewReader(bytes.NewReader(raw)), nil); nil == err {
+								body, berr := io.ReadAll(resp.Body)
+								one["status"] = resp.StatusCode
+								one["len"] = len(body)
+								h := sha256.Sum256(body)
+								one["sha256"] = hex.EncodeToString(h[:])
+								if len(body) <= 8192 {
+									one["body"] = hex.EncodeToString(body)
+								}
+								if nil != berr {
+									one["body_error"] = berr.Error()
+								}
+							} else {
+								one["error"] = fmt.Sprintf("unparsable response (%d bytes, read error %v): %v", len(raw), rerr, err)
+							}
+						}
+						pmu.Lock()
+						pres = append(pres, one)
+						pmu.Unlock()
+					}
+				}()
+			}
+			close(start)
+			pwg.Wait()
+			ar["par"] = pres
 		case "direct": /* call the mux (or a handler) with a crafted request */
 			method := hstr(am, "method")
 			if "" == method {
